@@ -358,22 +358,22 @@ class Runner:
             return [fail("reference-not-ndarray", None, {})]
         if fl(gx) != fl(rx) or fl(gy) != fl(ry):
             fails.append(fail("working-differs-from-reference", {"working": [gx, gy], "reference": [rx, ry]}, {}))
-        if not _close_series((rx, ry), self.model.ref):
+        if not _close_series((rx, ry), self.model.ref, self.model.err):
             fails.append(fail("reference-differs-from-transformed-original",
                               {"observed": [rx, ry], "expected": [fl(self.model.ref[0]), fl(self.model.ref[1])]}, {}))
-        if not _close_series((gx, gy), self.model.w):
+        if not _close_series((gx, gy), self.model.w, self.model.err):
             fails.append(fail("working-differs-from-transformed-original",
                               {"observed": [gx, gy], "expected": [fl(self.model.w[0]), fl(self.model.w[1])]}, {}))
         return fails
 
     def reference_model_ok(self):
         rx, ry = self.wv.get_reference()
-        if not _close_series((rx, ry), self.model.ref):
+        if not _close_series((rx, ry), self.model.ref, self.model.err):
             return [fail("reference-differs-from-model", {"observed": [rx, ry], "expected": [fl(self.model.ref[0]), fl(self.model.ref[1])]}, {})]
         return []
 
 
-def _close_series(obs, model):
+def _close_series(obs, model, err=(0.0, 0.0)):
     try:
         ox, oy = fl(obs[0]), fl(obs[1])
     except Exception:
@@ -383,7 +383,7 @@ def _close_series(obs, model):
         return False
     sx = max([1.0] + [abs(v) for v in mx])
     sy = max([1.0] + [abs(v) for v in my])
-    return all(abs(a - b) <= 1e-9 * sx for a, b in zip(ox, mx)) and all(abs(a - b) <= 1e-9 * sy for a, b in zip(oy, my))
+    return all(abs(a - b) <= 1e-9 * sx + 8 * err[0] for a, b in zip(ox, mx)) and all(abs(a - b) <= 1e-9 * sy + 8 * err[1] for a, b in zip(oy, my))
 
 
 def tag(fails, op, history):
